@@ -342,6 +342,7 @@ def records3(m) -> List[Tuple[str, List[str]]]:
     if m["num_satellites"]:
         r.append(("NSAT", [m["num_satellites"]]))
     insert_comments(r, m)
+    shuffle_header(r, m)
     r.append(("EOH", []))
     for ep in m["epochs"]:
         y, mo, d, h, mi, s = ep["date"]
@@ -355,6 +356,31 @@ def records3(m) -> List[Tuple[str, List[str]]]:
         for sat in ep["sats"]:
             r.append(("OBS3", [sat["sat"]] + [c for o in sat["obs"] for c in o]))
     return r
+
+
+def shuffle_header(r, m):
+    """file-model blocks only (m["hdr_shuffle"] = a seed): the header records after the version record in a random order that keeps
+    the relative order inside a family (comments; # / TYPES OF OBSERV and its continuation records; the wavelength records; the
+    phase-shift / GLONASS slot records with their continuation records; DCBS / PCVS) and keeps a SYS / # / OBS TYPES record together
+    with its continuation lines - the order the file-level theorems allow"""
+    seed = m.get("hdr_shuffle")
+    if seed is None:
+        return
+    import random
+    rnd = random.Random(seed)
+    fam = {"TYPES2C": "TYPES2", "PSHIFTC": "PSHIFT", "GSLOTC": "GSLOT", "SYSOBSC": "SYSOBS"}
+    units: List[Tuple[str, List[Tuple[str, List[str]]]]] = []
+    for rec in r[1:]:
+        if rec[0] == "SYSOBSC":
+            units[-1][1].append(rec)
+        else:
+            units.append((fam.get(rec[0], rec[0]), [rec]))
+    order = [f for f, _ in units]
+    rnd.shuffle(order)
+    queues: Dict[str, List[List[Tuple[str, List[str]]]]] = {}
+    for f, u in units:
+        queues.setdefault(f, []).append(u)
+    r[1:] = [rec for f in order for rec in queues[f].pop(0)]
 
 
 def insert_comments(r, m):
@@ -399,6 +425,7 @@ def records2(m) -> List[Tuple[str, List[str]]]:
     if m["num_satellites"]:
         r.append(("NSAT", [m["num_satellites"]]))
     insert_comments(r, m)
+    shuffle_header(r, m)
     r.append(("EOH", []))
     for ep in m["epochs"]:
         y, mo, d, h, mi, s = ep["date"]
@@ -936,6 +963,7 @@ def gen_file3_model(rng, thorough: bool) -> Dict[str, Any]:
     the observation records follow as for flag 0)"""
     m = gen_file3(rng, thorough)
     m["comments"] = [(p, t.strip()) for p, t in m["comments"]]
+    m["hdr_shuffle"] = rng.randrange(1 << 30) if rng.random() < 0.4 else None
     for ep in m["epochs"]:
         ep["flag"] = "1" if rng.random() < 0.15 else "0"
     sprinkle_sub_us(rng, m)
@@ -1074,6 +1102,8 @@ def stats_file3_glonass(ctx, m):
 
 def stats_file3(ctx: Ctx, m, rate):
     ctx.count("file3")
+    if m.get("hdr_shuffle") is not None:
+        ctx.count("file3 header records in random order")
     for ep in m["epochs"]:
         sec = ep["date"][5].strip()
         if ep["date"][3:] == [0, 0, "0.0000000"]:
@@ -1206,6 +1236,7 @@ def gen_file2_model(rng, thorough: bool) -> Dict[str, Any]:
     its flag (0, or 1 = power failure between the previous and this epoch: the observation records follow as for flag 0)"""
     m = gen_file2(rng, thorough)
     m["comments"] = [(p, t.strip()) for p, t in m["comments"]]
+    m["hdr_shuffle"] = rng.randrange(1 << 30) if rng.random() < 0.4 else None
     for ep in m["epochs"]:
         ep["flag"] = "1" if rng.random() < 0.15 else "0"
     sprinkle_sub_us(rng, m)
@@ -1248,6 +1279,8 @@ def blank_lines2(sat) -> int:
 
 def stats_file2(ctx: Ctx, m, rate):
     ctx.count("file2")
+    if m.get("hdr_shuffle") is not None:
+        ctx.count("file2 header records in random order")
     for ep in m["epochs"]:
         sec = ep["date"][5].strip()
         if ep["date"][3:] == [0, 0, "0.0000000"]:
@@ -1349,14 +1382,17 @@ def run(ctx: Ctx):
                 "oracle-only block); written by an independent Python writer; non-trivial = at least two satellites and a continuation "
                 "line (header or data) or a sampling rate; distinct by file text + rate. "
                 "Block file3: RINEX 3 models as the theorem's abstract file (Spec/Rinex3ObsFile.lean: every header record of the writer, "
-                "phase-shift records with the satellite list as one cell and GLONASS slot / bias records with one cell per pair, comments without leading blanks), epoch flag 0 or 1 (15 %), in 25 % of the files 1-2 event epochs (flag 2-5 followed by "
+                "phase-shift records with the satellite list as one cell and GLONASS slot / bias records with one cell per pair, comments without leading blanks; in 40 % of the "
+                "files the header records after the version record in a random order that keeps a SYS / # / OBS TYPES record with its continuation lines together and the order inside "
+                "each family of records), epoch flag 0 or 1 (15 %), in 25 % of the files 1-2 event epochs (flag 2-5 followed by "
                 "special records COMMENT / MARKER NAME / ANTENNA: DELTA H/E/N / ANT # / TYPE instead of satellites), are handed to the driver "
                 "as the abstract file F (cells as printed + the values computed here with Fraction): render(F) must be the independent writer's "
                 "text byte for byte, wf(F) and the theorem instance readData(fileLines F) = expected F must hold, expected(F) after the "
                 "post-processors must be the real parser's output for that text, and the oracle compares the parser with the model; "
                 "non-trivial there = two satellites and a header continuation line, a sampling rate or a flagged epoch. "
                 "Block file2: the same for RINEX 2 models (every header record of the writer incl. wavelength factors and # / TYPES OF "
-                "OBSERV continuation, comments without leading blanks, epoch flag 0 or 1 (15 %), satellite identifiers as printed: 'G07', "
+                "OBSERV continuation, comments without leading blanks, in 40 % of the files the header records after the version record in a random order that only keeps "
+                "the order inside a family - comments between # / TYPES OF OBSERV and its continuation records included -, epoch flag 0 or 1 (15 %), satellite identifiers as printed: 'G07', "
                 "' 07', 'G 7') as the abstract file of Spec/Rinex2ObsFile.lean: render2(F) = writer's text byte for byte, wf(F), the "
                 "instance readData(fileLines F) = expected F, expected2(F) after the post-processors = the real parser's output, and the "
                 "oracle; non-trivial there = two satellites and a data / satellite-list continuation line, a sampling rate or a flagged epoch")
